@@ -594,12 +594,15 @@ def check_case(ctx, case, pending):
                 if ans.get("exec") != real_exec:
                     ctx.fail("corr:executor-error-capture", "model of resolve_field/complete_value/_handle_non_nullable_value differs from the real executor",
                              dict(detail, model=ans, real=real_exec, tree=tree), kind="correspondence")
+                if ans.get("tree_ok") is False:
+                    ctx.fail("corr:tree-not-admissible", "hypothesis treeOkFields of executed_response_wellformed does not hold on a recorded tree",
+                             dict(detail, tree=tree), kind="correspondence")
                 if ans.get("keys_distinct") is False:
                     ctx.fail("corr:response-keys-not-distinct", "hypothesis RootKeysDistinct of exactly_one_error_per_site does not hold on a recorded tree",
                              dict(detail, tree=tree), kind="correspondence")
                 if ans.get("bijection") is False:
                     ctx.fail("corr:model-bijection", "the model's own errors are not in bijection with its null sites", dict(detail, model=ans), kind="correspondence")
-            pending.append(({"op": "exec", "fields": tree}, on_exec))
+            pending.append(({"op": "exec", "fields": tree, "len": len(text)}, on_exec))
     return sigs
 
 
